@@ -204,20 +204,20 @@ theorem C19_statement_partial {sep : Str} (hne : sep ≠ []) (hb : unbordered se
     (c : Cache) (hc : CacheInv c) (ps : List Piece) (hw : wf ps = true) (hp : procOK ps = true)
     (hd : detectOK ps = true) (hn : ps.any Piece.isNamed = true) (fv : List Str)
     (hlen : (keysOf ps).length ≤ fv.length) (hv : ∀ v ∈ fv, containsSub sep v = false) :
-    (backendStep sep san c (render ps) fv).1 =
+    (backendStep sep san false c (render ps) fv).1 =
       { msg := finishMsg san (msgSpec ps fv),
         pairs := some ((populateNames (keysOf ps) fv.length).zip (if san then fv.map sanitize else fv)) } ∧
-    CacheInv (backendStep sep san c (render ps) fv).2 :=
+    CacheInv (backendStep sep san false c (render ps) fv).2 :=
   backendStep_named hne hb san c hc ps hw hp hd hn fv hlen hv
 
 /-- a template without named placeholder goes to fmt as it is and yields no pairs -/
 theorem C19_statement_unnamed_partial (sep : Str) (san : Bool) (c : Cache) (ps : List Piece) (hw : wf ps = true)
     (hd : detectOK ps = true) (hn : ps.any Piece.isNamed = false) (fv : List Str) :
-    backendStep sep san c (render ps) fv = ({ msg := finishMsg san (msgSpec ps fv), pairs := none }, c) :=
+    backendStep sep san false c (render ps) fv = ({ msg := finishMsg san (msgSpec ps fv), pairs := none }, c) :=
   backendStep_unnamed sep san c ps hw hd hn fv
 
 example : let sep := [Char.ofNat 1, Char.ofNat 2, Char.ofNat 3]
-    (backendStep sep false [] "x {a} y {b:>5} {{z}}".toList ["1".toList, "    q".toList]).1
+    (backendStep sep false false [] "x {a} y {b:>5} {{z}}".toList ["1".toList, "    q".toList]).1
       = { msg := some "x 1 y     q {z}".toList, pairs := some [(['a'], ['1']), (['b'], "    q".toList)] } := by decide
 
 /-! ## the JSON line -/
@@ -367,6 +367,14 @@ theorem C19_logj (tp : List Piece) (hw : wf tp = true) (hn : noFields tp = true)
       simp only [logjPieces]
       rw [keysOf_prefix tp _ hn]
       simp [keysOf, syntaxOf, keysOf_logj_tail]
+
+/-- **LOGJ_ with an argument that is not a plain identifier** (finding candidate F11c): the macro stringifies the
+    argument as written, so `LOGJ_INFO(l, "q", ns::v)` generates `"q {ns::v}"`, which the grammar (and the scanner)
+    reads as the placeholder `ns` with spec `:v`: the key is `ns`, fmt is handed the spec `::v` and rejects it. -/
+theorem C19_logj_colon_counter :
+    logjLiteral ['q'] ["ns::v".toList] = "q {ns::v}".toList ∧
+    process "q {ns::v}".toList = ("q {::v}".toList, [("ns".toList, "::v".toList)]) ∧
+    nameOK "ns::v".toList = false := by decide
 
 example : process (logjLiteral "A json message".toList ["var_a".toList, "b".toList])
     = ("A json message {}, {}".toList, [("var_a".toList, []), (['b'], [])]) := by decide
